@@ -12,5 +12,5 @@ git apply "$SEED/patch.diff" || { echo "PATCH DOES NOT APPLY"; cd /; git -C /rep
 echo "== demo with change"; PYTHONPATH="$WT" /venv/bin/python "$SEED/demo.py" >/tmp/sc-$$.out 2>&1; echo "exit=$? $(tail -1 /tmp/sc-$$.out)"
 echo "== suite with change"; PYTHONPATH="$WT" /venv/bin/python -m pytest -q -p no:cacheprovider --timeout=900 2>&1 | tail -1
 echo "== check $PROP ($TIER) with change"
-(cd "$HERE" && VERIF_REPO="$WT" ./check "$PROP" --tier "$TIER" 2>&1 | grep -E "VIOLATION|KNOWN-FINDING|tier=|INFRA" | head -5)
+(cd "$HERE" && VERIF_REPO="$WT" ./check "$PROP" --tier "$TIER" 2>&1 | grep -E "VIOLATION|tier=|INFRA" | head -5)
 cd /; git -C /repo worktree remove --force "$WT"; rm -f /tmp/sc-$$.out
